@@ -1,5 +1,5 @@
 (** Request dispatch: one request line in, one response line out. *)
-From Cel.Model Require Export Wire Arith Compare Macros Parser.
+From Cel.Model Require Export Wire Arith Compare Macros Parser Refs.
 Open Scope string_scope.
 
 Definition bad (why : string) : sexp := tagged "bad-request" [Atom why].
@@ -94,6 +94,18 @@ Definition handle (req : sexp) : sexp :=
           | COutOfFuel => Atom "(out-of-fuel)"
           end
       | _, _ => bad "evalsrc"
+      end
+  | SList [Atom "refs"; src] =>
+      match opt_str src with
+      | Some s =>
+          match compile s with
+          | CExpr e =>
+              tagged "refs" [tagged "vars" (map (fun x => tagged "str" (sexp_of_str x)) (sort_dedup (ref_vars e)));
+                             tagged "funs" (map (fun x => tagged "str" (sexp_of_str x)) (sort_dedup (ref_funs e)))]
+          | CReject => Atom "(reject)"
+          | COutOfFuel => Atom "(out-of-fuel)"
+          end
+      | None => bad "refs"
       end
   | SList [Atom "echo"; a] =>
       match value_of_sexp a with
